@@ -441,6 +441,30 @@ func runInBubble(s Script) (res vt.Result) {
 				}
 			}
 		}
+		// (c) a Close call that has returned (any of them: Close is documented idempotent and concurrency
+		// safe, "waiting for ongoing requests to return" and then terminating the connection) means the
+		// handlers that were running have returned and the transport is closed (healthy link only)
+		if !w.broken {
+			for _, bl := range blockers {
+				if !strings.HasSuffix(bl.what, " Close") {
+					continue
+				}
+				select {
+				case <-bl.done:
+				default:
+					continue
+				}
+				side := strings.TrimSuffix(bl.what, " Close")
+				for _, h := range w.hs {
+					if cc := w.closeCallClock[side]; h.side == side && cc != 0 && h.startClock < cc && !h.ended {
+						res.Failf("step %d: a %s.Close() call returned while the %s handler %d, running since before Close was called, has not returned", i, side, side, h.k)
+					}
+				}
+				if w.transportClosed[side] == 0 {
+					res.Failf("step %d: a %s.Close() call returned although %s has not closed its transport", i, side, side)
+				}
+			}
+		}
 		w.mu.Unlock()
 		if len(res.Violations) > 0 {
 			break
